@@ -4,6 +4,7 @@ from __future__ import annotations
 import ast
 
 from ..cfg import raised_type
+from ..vals import fmt_obj
 from .common import R, seg
 from .c01 import escapes
 
@@ -20,7 +21,7 @@ def run(m, chk):
         "(the second index of the evaluator built in eval depends on self.degree); the evaluator's result depends on nodes, knot vector, both indices and weights; span(nodes) precedes the table lookup so outside nodes raise "
         "ValueError which escapes. The values (non-negativity, support, partition of unity) and negative-index / slice semantics are not decided."
     )
-    chk.decides = ["GATE(index validators)", "DEP-MAY", "GATE-SPAN", "X-ESCAPE", "PURE"]
+    chk.decides = ["GATE(index validators)", "DEP-MAY", "GATE-SPAN", "X-ESCAPE", "PURE", "FRESH-EVALUATOR (f(u) applies an evaluator built in the same call, never a kept one)"]
     chk.not_decided = ["Function(U)[i, j](u) = N_i,j(u) as values", "partition of unity", "negative indices / slices select the right rows"]
     ctx = r.root(GI)
     build = [c for c in ctx.calls if any(f.qual == FE + "__init__" for f in c.callees)]
@@ -47,6 +48,27 @@ def run(m, chk):
             v = c2.val(sl.elts[1])
             ok = v is not None and any(d[0] == "PF" and d[1] == 0 and "knotvector" in d[2] for d in v.all_dep()) and isinstance(sl.elts[0], ast.Slice) and sl.elts[0].lower is None and sl.elts[0].upper is None
         chk.ob("DEP-MAY", f"{eq}: f(u) is built as f[:, self.degree]", ok, loc=r.loc(c2, s.node), detail="" if ok else f"{eq}: `{seg(s.node, 40)}` does not select all rows at the function's own degree", func=eq, construct="f(u) is not f[:, degree](u)")
+    # the evaluator applied by f(u) is built in the same call: an evaluator kept from an earlier call is a snapshot of a knot
+    # vector object that callers can change in place (insert, shift, scale, degree) without the function object noticing
+    evs = [c for c in c2.calls if any(f.qual == FE + "__call__" for f in c.callees)]
+    chk.floor("FRESH-EVALUATOR", "applications of an evaluator in IndexableFunction.eval", len(evs), 1)
+    for c in evs:
+        kept = sorted(fmt_obj(o) for o in (c.recv.pts if c.recv is not None else ()) if o[0] != "N")
+        revalidated = False
+        if kept:
+            for t in c2.cfg.nodes:
+                if t.kind == "test" and c2.cfg.dominates(t.id, c.cfgnode):
+                    tv = c2.val(t.ast)
+                    if tv is not None and any(d[0] == "PF" and d[1] == 0 and "knotvector" in d[2] for d in tv.all_dep()) and any(d[0] == "PF" and d[1] == 0 and "knotvector" not in d[2] and "weights" not in d[2] for d in tv.all_dep()):
+                        revalidated = True
+        ok = not kept or revalidated
+        chk.ob("FRESH-EVALUATOR", f"{eq}: `{seg(c.node, 40)}` applies an evaluator built in this call", ok, loc=r.loc(c2, c.node),
+               detail="" if ok else f"{eq}: `{seg(c.node, 40)}` may apply an evaluator kept from an earlier call ({', '.join(kept)}) without comparing it with the current knot vector: the KnotVector object is shared by reference and mutable in place (insert / shift / scale / degree), so after such a change f(u) is computed from the old coefficient tables and f(u) != f[:, p](u)",
+               func=eq, construct="stale evaluator reused")
+    for nid, v in sorted(c2.ret_sites.items()):
+        have = r.deep_dep(c2, v, heap=c2.ret_states[nid].heap)
+        miss = [w for w in (("P", 1), ("PF", 0, "_BaseFunction__knotvector"), ("PF", 0, "_BaseFunction__weights")) if not R.dep_has(have, w)]
+        chk.ob("DEP-MAY", f"{eq}: f(u) depends on nodes, knot vector and weights", not miss, loc=r.loc(c2, c2.cfg.nodes[nid].ast), detail="" if not miss else f"{eq}: f(u) does not depend on {r.fmt_deps(c2.fi, miss)}", func=eq, construct=f"f(u) ignores {r.fmt_deps(c2.fi, miss)}")
     # evaluator result
     q = FE + "eval"
     c3 = r.root(q)
